@@ -12,7 +12,7 @@ _os.environ["MCTP_NO_EVIDENCE"] = "1"  # runs against modified trees must never 
 
 import json, os, subprocess, sys, time, glob
 VERIF = os.path.dirname(os.path.dirname(os.path.abspath(__file__)))
-REPO = "/repo"
+REPO = os.environ.get("EVAL_REPO", "/repo")
 ALL = ["C%02d" % i for i in range(1, 20)]
 
 def sh(cmd, cwd=None):
